@@ -528,9 +528,7 @@ func (e *Env) deref(p Val) CV {
 	v := fx.loadObj(e.st, p.sh.elem, p.ts[0])
 	if len(e.bound) == 0 {
 		// every heap location holds a well-typed value
-		if ti := typeInvariant(v); ti != "true" {
-			fx.assumes = append(fx.assumes, ti)
-		}
+		fx.assumeOnce(typeInvariant(v))
 	}
 	return cvOf(v)
 }
@@ -597,6 +595,28 @@ func (e *Env) lenOf(b CV) T {
 	return ""
 }
 
+// resolveTypeExpr also understands "map[K]V" and "[]T".
+func (e *Env) resolveTypeExpr(name string) types.Type {
+	name = strings.TrimSpace(name)
+	if strings.HasPrefix(name, "map[") {
+		depth := 0
+		for i := 3; i < len(name); i++ {
+			if name[i] == '[' {
+				depth++
+			} else if name[i] == ']' {
+				depth--
+				if depth == 0 {
+					return types.NewMap(e.resolveTypeExpr(name[4:i]), e.resolveTypeExpr(name[i+1:]))
+				}
+			}
+		}
+	}
+	if strings.HasPrefix(name, "[]") {
+		return types.NewSlice(e.resolveTypeExpr(name[2:]))
+	}
+	return e.resolveType(name)
+}
+
 func (e *Env) resolveType(name string) types.Type {
 	ptr := 0
 	for strings.HasPrefix(name, "*") {
@@ -606,12 +626,22 @@ func (e *Env) resolveType(name string) types.Type {
 	var t types.Type
 	if i := strings.LastIndex(name, "."); i >= 0 {
 		pkgName, tn := name[:i], name[i+1:]
+		// exact import path first, then the shortest path with that package name
+		var best *types.Package
 		for _, imp := range e.fx.eng.allPackages() {
-			if imp.Name() == pkgName || imp.Path() == pkgName {
-				if obj := imp.Scope().Lookup(tn); obj != nil {
-					t = obj.Type()
-					break
+			if imp.Path() == pkgName {
+				best = imp
+				break
+			}
+			if imp.Name() == pkgName && imp.Scope().Lookup(tn) != nil && !strings.Contains(imp.Path(), "internal/") {
+				if best == nil || len(imp.Path()) < len(best.Path()) {
+					best = imp
 				}
+			}
+		}
+		if best != nil {
+			if obj := best.Scope().Lookup(tn); obj != nil {
+				t = obj.Type()
 			}
 		}
 	} else if e.pkg != nil {
@@ -908,6 +938,67 @@ func (e *Env) call(x *ECall) CV {
 			unsupp("contract: local %s is not live here", id.Name)
 		}
 		return cvOf(v)
+	case "monitor", "monitor_assumed":
+		// monitor(c, "lock"): the (proved / assumed) monitor invariants of the
+		// mutex field of object c
+		a := arg(0)
+		fs, ok := x.Args[1].(*EStr)
+		if !ok || a.k != cvVal || a.v.sh.kind != KPtr || a.v.sh.elem == nil {
+			unsupp("contract: monitor(object, \"mutexfield\")")
+		}
+		var mon *MonitorSpec
+		for i, n := range a.v.sh.elem.fnames {
+			if n == fs.V {
+				mon = fx.eng.contracts.Monitors[embeddedKey(a.v.sh.elem, i)]
+			}
+		}
+		if mon == nil {
+			unsupp("contract: no monitor declared for field %s", fs.V)
+		}
+		ne := &Env{fx: fx, vars: map[string]CV{mon.Var: a}, st: e.st, old: e.old, pkg: fx.eng.pkgOf(mon.Pkg), bound: map[string]bool{}}
+		list := mon.Invariants
+		if x.Fn == "monitor_assumed" {
+			list = mon.Assumed
+		}
+		var cs []T
+		for _, inv := range list {
+			cs = append(cs, ne.eval(inv.E).asBool())
+		}
+		return CV{k: cvBool, t: and(cs...)}
+	case "addr":
+		// addr(p, "field"): address of an embedded (separately addressed) field
+		a := arg(0)
+		fs, ok := x.Args[1].(*EStr)
+		if !ok || a.k != cvVal || a.v.sh.kind != KPtr || a.v.sh.elem == nil || a.v.sh.elem.kind != KStruct {
+			unsupp("contract: addr(pointer-to-struct, \"field\")")
+		}
+		for i, n := range a.v.sh.elem.fnames {
+			if n == fs.V {
+				fsh := a.v.sh.elem.fields[i]
+				code := app("+", embBase, app("*", a.v.ts[0], "64"), num(int64(i)))
+				return cvOf(Val{sh: &Shape{kind: KPtr, elem: fsh, key: "*" + fsh.key}, ts: []T{code}})
+			}
+		}
+		unsupp("contract: addr: no field %s", fs.V)
+	case "owner":
+		// owner(q, "T"): the object of type T whose embedded field has address q
+		a := arg(0)
+		ts, ok := x.Args[1].(*EStr)
+		if !ok || a.k != cvVal {
+			unsupp("contract: owner(pointer, \"T\")")
+		}
+		t := e.resolveType(ts.V)
+		return cvOf(Val{sh: shapeOf(types.NewPointer(t)), ts: []T{app("div", sub(a.v.ts[0], embBase), "64")}})
+	case "strid":
+		// strid(s): the map key identity of a string / byte slice content
+		a := arg(0)
+		if a.k == cvVal && a.v.sh.kind == KSlice {
+			a = CV{k: cvStr, arr: fx.sliceBacking(e.st, a.v.sh.elem, a.v.slRef(), 0), off: a.v.slOff(), n: a.v.slLen()}
+		}
+		if a.k != cvStr {
+			unsupp("contract: strid of non-string")
+		}
+		return CV{k: cvInt, t: fx.keyTerm(mkStr(shapeOf(types.Typ[types.String]), a.arr, a.off, a.n))}
 	case "zero":
 		s, ok := x.Args[0].(*EStr)
 		if !ok {
@@ -1045,6 +1136,21 @@ func (e *Env) callSpecFn(sf *SpecFn, args []CV) CV {
 		unsupp("contract: %s expects %d arguments", sf.Name, len(sf.Params))
 	}
 	fx.usedSpecFns[sf.Name] = true
+	if sf.Inline {
+		// macro: evaluate the body here, in the current state
+		if sf.Body == nil || sf.Recursive {
+			unsupp("contract: inline spec fn %s needs a non-recursive body", sf.Name)
+		}
+		ne := e.child()
+		for i, p := range sf.Params {
+			ne.vars[p.Name] = args[i]
+		}
+		ne.pkg = fx.eng.pkgOf(sf.Pkg)
+		if ne.pkg == nil {
+			ne.pkg = e.pkg
+		}
+		return ne.eval(sf.Body)
+	}
 	fx.emitSpecFn(sf)
 	var flat []T
 	for i, p := range sf.Params {
